@@ -101,6 +101,14 @@ def locate_functions(run, text):
                 continue
             eol = text.find('\n', off)
             mtext = text[mstart:(eol if eol >= 0 else len(text))]
+            # a module-level const item: its initialiser can be hidden from the verifier as well
+            lstart = text.rfind('\n', 0, off) + 1
+            cm = re.match(r'\s*(?:pub(?:\([a-z]+\))? )?const\s+([A-Z_][A-Z0-9_]*)\s*:', text[lstart:eol if eol >= 0 else len(text)])
+            if cm and text.rfind(extract.GOPEN, 0, lstart) <= text.rfind(extract.GCLOSE, 0, lstart):
+                cand = (mname, 'const:' + cm.group(1), 0)
+                if cand not in out:
+                    out.append(cand)
+                continue
             best = None
             for fm in re.finditer(r'\bfn\s+([A-Za-z0-9_]+)', mtext):
                 # real functions only: not inside an inserted region
